@@ -7,3 +7,4 @@ S("c19_scan_count1_stable", "full SCAN iteration with COUNT 1 over an unchanging
 S("c19_scan_count2_stable", "same with COUNT 2", tier="thorough")
 S("c19_scan_count1_add", "full SCAN iteration with COUNT 1 while another key ('d') is added after the first call: the keys that existed throughout are all returned")
 S("c19_scan_count1_delete_kf", "full SCAN iteration with COUNT 1 while an already-returned smaller key ('a') is deleted after the first call: the keys that existed throughout ('b','c') must still all be returned", expect="kf:KF-C19-index-cursor")
+# engine glob vs reference (c19_glob_*): CBMC out of memory / > 15 min even for 2x3 bytes (Vec<char> collection of both strings) - not registered
